@@ -44,7 +44,7 @@ ADJ = {
     'Tax Relief Per Year': ['0.5', '100'],
     'Maximum Drawdown': ['0.05', '0.01'],
     'Surface Piping Length': ['10'],
-    'Number of Injection Wells': ['1', '5'],
+    'Number of Injection Wells': ['0', '1', '5'],      # 0 is the documented minimum (the pinned standard well-bore model divides by it: not accepted)
     'Number of Production Wells': ['1', '5'],
 }
 INTER1 = ('Total Capital Cost', 'Investment Tax Credit Rate', 'One-time Grants Etc', 'One-time Flat License Fees Etc',
